@@ -226,6 +226,49 @@ func slowDialScenario(tr string) h.Scenario {
 	}}
 }
 
+// herd: callers that find no connection at the same time share one dial: one of them connects, the others wait
+// for it (a connection per caller, all but one dropped again, is a burst of connections for the server and of
+// OnConnect / OnClose callbacks for the application each time the pool is empty).
+func herdScenario(tr string) h.Scenario {
+	name := tr + "/first-calls-arrive-together"
+	return h.Scenario{Name: name, Quick: 2, Thorough: 3, Run: func(ch vs.Chooser, trace bool) (*vs.Sched, h.Outcome) {
+		var res [2]callRes
+		only(tr)
+		dials := 0
+		s := vs.Run(ch, vs.Config{Trace: trace, Dial: func(network, addr string) (vs.Conn, error) {
+			dials++
+			vs.Gosched() // a dial takes a moment: the other caller gets to look into the pool meanwhile
+			if tr == "udp" {
+				return sockfake.UEcho(fmt.Sprintf("uconn%d", dials)), nil
+			}
+			return sockfake.Echo(fmt.Sprintf("conn%d", dials)), nil
+		}}, func() {
+			scheme := map[string]string{"socket": "tcp", "udp": "udp"}[tr]
+			client := core.NewClient(scheme + "://peer/")
+			var wg vs.WaitGroup
+			wg.Add(2)
+			vs.GoFG("caller0", func() { defer wg.Done(); res[0] = doCall(client, context.Background(), "req0", callTimeout) })
+			vs.GoFG("caller1", func() { defer wg.Done(); res[1] = doCall(client, context.Background(), "req1", callTimeout) })
+			wg.Wait()
+			client.Abort()
+		})
+		var o h.Outcome
+		o.Key = fmt.Sprintf("%s %s dials=%d", errClass(res[0].err), errClass(res[1].err), dials)
+		if s.Pruned || s.Aborted != "" || len(s.Hangs) > 0 {
+			return s, o
+		}
+		for i, r := range res {
+			if r.err != nil || r.resp != fmt.Sprintf("re:req%d", i) {
+				o.Viol = append(o.Viol, h.V{Sig: "first-calls-together|call-fails|" + tr, What: fmt.Sprintf("%s: call %d returned %q, %v", name, i, r.resp, r.err)})
+			}
+		}
+		if dials > 1 {
+			o.Viol = append(o.Viol, h.V{Sig: "first-calls-together|several-dials-for-one-server|" + tr, What: fmt.Sprintf("%s: two calls that found the pool empty made %d connections to the one server", name, dials)})
+		}
+		return s, o
+	}}
+}
+
 func judge(name string, sc scen, s *vs.Sched, res []callRes, follow callRes, followFails int, pendingConns, pendingCalls, leakedBefore, nconns int) h.Outcome {
 	var o h.Outcome
 	var keys []string
@@ -590,7 +633,7 @@ func main() {
 		scens = append(scens, wsScenario("close", 2, to, false, 1, 2), wsScenario("answer-then-close", 2, to, false, 1, 2))
 		scens = append(scens, udpScenario("reset", 2, to, false, 1, 2))
 		if to > 0 {
-			scens = append(scens, slowDialScenario("socket"), slowDialScenario("udp"))
+			scens = append(scens, slowDialScenario("socket"), slowDialScenario("udp"), herdScenario("socket"), herdScenario("udp"))
 		}
 		for _, b := range []string{"answer", "error", "panic", "never"} {
 			scens = append(scens, mockScenario(b, to, false, false))
